@@ -16,11 +16,13 @@ import (
 	"sync/atomic"
 	"time"
 
+	"github.com/sarchlab/akita/v4/mem/mem"
 	"github.com/sarchlab/akita/v4/sim"
 	"github.com/sarchlab/akita/v4/tracing"
 	"github.com/sarchlab/mgpusim/v4/amd/benchmarks"
 	"github.com/sarchlab/mgpusim/v4/amd/driver"
 	"github.com/sarchlab/mgpusim/v4/amd/samples/runner"
+	"github.com/sarchlab/mgpusim/v4/amd/timing/mem/simplebankedmemory"
 
 	"verifharness/vlib"
 )
@@ -110,6 +112,7 @@ type childResult struct {
 	Copies         []copyRec        `json:"copies,omitempty"`            // copy hand-off programs: one record per observed blocking copy
 	CopyEnds       map[string]int64 `json:"copy_command_ends,omitempty"` // every copy command of the run, by "<command>|<last reply>"
 	CopyEndStalls  int64            `json:"copy_end_stalls,omitempty"`
+	Contention     map[string]int64 `json:"contention,omitempty"` // per kind (dram, l2): ports metered, requests retrieved, cycles with >= 2 requests retrieved at one port
 	GoMaxProcs     int              `json:"gomaxprocs_seen"`
 	NumCPU         int              `json:"numcpu_seen"`
 }
@@ -159,6 +162,13 @@ type monitor struct {
 	stallEvents atomic.Int64 // events left that the engine thread stalls after
 	stalls      atomic.Int64
 	notifyInEvt atomic.Int64 // completion notifications issued from inside an event
+
+	// contention bookkeeping (engine goroutine only): the ticking components
+	// seen as event handlers; DRAM controllers and L2 caches get a meter on
+	// their Top port the first time they handle an event
+	eng    sim.Engine
+	seenTC map[*sim.TickingComponent]struct{}
+	meters []*portMeter
 
 	holdsWaited  atomic.Int64
 	holdsExpired atomic.Int64
@@ -286,12 +296,121 @@ func (m *monitor) Func(ctx sim.HookCtx) {
 	switch ctx.Pos {
 	case sim.HookPosBeforeEvent:
 		m.inEvent.Store(true)
+		if evt, ok := ctx.Item.(sim.Event); ok && m.seenTC != nil {
+			if tc, ok := evt.Handler().(*sim.TickingComponent); ok {
+				if _, seen := m.seenTC[tc]; !seen {
+					m.seenTC[tc] = struct{}{}
+					m.attachMeter(tc)
+				}
+			}
+		}
 	case sim.HookPosAfterEvent:
 		m.inEvent.Store(false)
 		if m.stallEvents.Load() > 0 {
 			m.stallEvents.Add(-1)
 			m.stalls.Add(1)
 			m.randomDelay(numPoints)
+		}
+	}
+}
+
+// portMeter is a hook on the Top port of a DRAM controller or an L2 cache. It
+// counts the cycles in which the component retrieved two or more requests from
+// that port, i.e. in which at least two requests are pending inside the
+// component at once and its scheduling order among them matters.
+type portMeter struct {
+	eng      sim.Engine
+	kind     string // "dram" | "l2"
+	last     sim.VTimeInSec
+	inCycle  int
+	cycles2  int64
+	requests int64
+	other    int64
+
+	conv            mem.AddressConverter // set for simplebankedmemory controllers
+	banks           [16]int
+	rows            [16]uint64
+	sameBankHit     bool
+	diffRowHit      bool
+	cycles2SameBank int64
+	cycles2DiffRow  int64
+}
+
+func (p *portMeter) Func(ctx sim.HookCtx) {
+	if ctx.Pos != sim.HookPosPortMsgRetrieveIncoming {
+		return
+	}
+	msg, _ := ctx.Item.(sim.Msg)
+	if msg != nil && p.kind == "dram" && !strings.Contains(string(msg.Meta().Src), "L2Cache") {
+		p.other++ // DMA engine traffic (host<->device copies): streams, not kernel contention
+		return
+	}
+	p.requests++
+	t := p.eng.CurrentTime()
+	if t != p.last {
+		p.last, p.inCycle, p.sameBankHit, p.diffRowHit = t, 0, false, false
+		for k := range p.banks {
+			p.banks[k] = 0
+		}
+	}
+	p.inCycle++
+	if p.inCycle == 2 {
+		p.cycles2++
+	}
+	// the bank the request goes to, for the banked DRAM model of the mi300a
+	// platform: bank = (converted address >> log2 interleave) % banks with the
+	// values timingconfig/mi300a configures (64-byte interleave, 16 banks)
+	if p.conv != nil {
+		if ar, ok := msg.(mem.AccessReq); ok {
+			addr := p.conv.ConvertExternalToInternal(ar.GetAddress())
+			bank := (addr >> 6) % uint64(len(p.banks))
+			row := (((addr>>6)/uint64(len(p.banks)))<<6 | addr&63) >> 11 // 2 KiB rows of the bank-local address
+			p.banks[bank]++
+			if p.banks[bank] == 1 {
+				p.rows[bank] = row
+			}
+			if p.banks[bank] >= 2 && !p.sameBankHit {
+				p.sameBankHit = true
+				p.cycles2SameBank++
+			}
+			if p.banks[bank] >= 2 && row != p.rows[bank] && !p.diffRowHit {
+				p.diffRowHit = true
+				p.cycles2DiffRow++
+			}
+		}
+	}
+}
+
+type identityConverter struct{}
+
+func (identityConverter) ConvertExternalToInternal(a uint64) uint64 { return a }
+func (identityConverter) ConvertInternalToExternal(a uint64) uint64 { return a }
+
+func (m *monitor) attachMeter(tc *sim.TickingComponent) {
+	name := tc.Name()
+	kind := ""
+	switch {
+	case strings.Contains(name, ".DRAM["):
+		kind = "dram"
+	case strings.Contains(name, ".L2Cache["):
+		kind = "l2"
+	default:
+		return
+	}
+	for _, port := range tc.Ports() {
+		if strings.HasSuffix(port.Name(), "TopPort") || strings.HasSuffix(port.Name(), "Top") {
+			pm := &portMeter{eng: m.eng, kind: kind, last: -1}
+			if sb, ok := port.Component().(*simplebankedmemory.Comp); ok {
+				pm.conv = sb.BankAddressConverter
+				if pm.conv == nil {
+					pm.conv = sb.AddressConverter
+				}
+				if pm.conv == nil {
+					pm.conv = identityConverter{}
+				}
+			}
+			port.AcceptHook(pm)
+			m.meters = append(m.meters, pm)
 		}
 	}
 }
@@ -514,6 +633,8 @@ func runOnce(job childJob, pass int) *childResult {
 	d := rn.Driver()
 	mon.drv.Store(d)
 	if !r.Parallel {
+		mon.eng = rn.Engine()
+		mon.seenTC = map[*sim.TickingComponent]struct{}{}
 		rn.Engine().AcceptHook(mon)
 	}
 
@@ -550,6 +671,19 @@ func runOnce(job childJob, pass int) *childResult {
 	}
 	tr.mu.Unlock()
 	res.CopyEndStalls = tr.stalls.Load()
+	res.Contention = map[string]int64{}
+	for _, pm := range mon.meters { // the engine goroutine has stopped: Runner.Run() returned
+		res.Contention[pm.kind+"_ports"]++
+		res.Contention[pm.kind+"_requests"] += pm.requests
+		if pm.other > 0 {
+			res.Contention[pm.kind+"_requests_not_from_l2"] += pm.other
+		}
+		res.Contention[pm.kind+"_cycles_with_2_or_more_pending"] += pm.cycles2
+		if pm.conv != nil {
+			res.Contention[pm.kind+"_cycles_with_2_or_more_pending_same_bank"] += pm.cycles2SameBank
+			res.Contention[pm.kind+"_cycles_with_2_or_more_pending_same_bank_different_rows"] += pm.cycles2DiffRow
+		}
+	}
 	after, _ := filepathGlob("akita_sim_*.sqlite3")
 	old := map[string]bool{}
 	for _, f := range before {
